@@ -153,6 +153,29 @@ def oracle(case, ctx):
             ya = lib_call(f"C08|Chain|{name}", alt.transform, jnp.asarray(x), cj)
             if _close(ya, y0, M, tolv) > 1.0:
                 raise Violation(f"C08|Chain|{name}", "function changed")
+        # every contiguous slice: declared shape / cond_shape are those of its own members, it is callable with exactly
+        # that condition (None when all its members are unconditional) and equals the members applied in order
+        from flowjax.wrappers import unwrap as _unwrap
+        mem = [_unwrap(ch[k]) for k in range(len(ch))]
+        zs = [jnp.asarray(x)]
+        for m in mem:
+            zs.append(lib_call("C08|Chain|member", m.transform, zs[-1], cj if m.cond_shape is not None else None))
+        merged = ch.merge_chains()
+        if tuple(merged.shape) != tuple(ch.shape) or merged.cond_shape != ch.cond_shape:
+            raise Violation("C08|Chain|merge_chains_declared", f"shape/cond_shape {merged.shape}/{merged.cond_shape} vs {ch.shape}/{ch.cond_shape}")
+        pairs = [(i, j) for i in range(len(ch)) for j in range(i + 1, len(ch) + 1) if (i, j) != (0, len(ch))][:12]
+        for i, j in pairs:
+            sl = lib_call("C08|Chain|slice", lambda: ch[i:j])
+            conds = [m.cond_shape for m in mem[i:j] if m.cond_shape is not None]
+            want_cs = conds[0] if conds else None
+            got_cs = None if sl.cond_shape is None else tuple(sl.cond_shape)
+            if got_cs != (None if want_cs is None else tuple(want_cs)) or tuple(sl.shape) != tuple(ch.shape):
+                raise Violation("C08|Chain|slice_declared", f"chain[{i}:{j}] declares shape/cond_shape {sl.shape}/{sl.cond_shape}; its members "
+                                                            f"have {ch.shape}/{want_cs} (member cond_shapes {[m.cond_shape for m in mem]})")
+            ys = lib_call("C08|Chain|slice_call", sl.transform, zs[i], cj if want_cs is not None else None)
+            if np.all(np.isfinite(np.asarray(zs[j]))) and _close(ys, zs[j], float(np.max(np.abs(np.asarray(zs[j])), initial=0)), tolv) > 1.0:
+                raise Violation("C08|Chain|slice_value", f"chain[{i}:{j}] differs from its members applied in order")
+            ctx.hist("chain_slice", "drops_condition" if (want_cs is None and ch.cond_shape is not None) else "plain")
         if len(ch) != len(spec["children"]):
             raise Violation("C08|Chain|len", f"{len(ch)} != {len(spec['children'])}")
         if any(isinstance(b, B.Chain) for b in ch.merge_chains().bijections):
